@@ -193,6 +193,12 @@ static void hist_case (long idx, vf_rng *r)
         if (L.src.kind == RQ_BITS && !rp_is_float (L.src.fmt) && L.src.buf.bpp <= 32 && lx[0].holders == 0 && !L.pixbuf && vf_chance (r, 1, 8)) {
             ro = 1; pixman_image_set_accessors (L.src.img, acc_read, NULL); vf_count ("read_only_accessor_composites", 1);
             if (hk < 1200) hk += snprintf (hist + hk, sizeof hist - hk, "src.set_accessors(reader, NULL); "); }
+        int via_traps = !wo && (((L.dst.fmt == PIXMAN_a8 || L.dst.fmt == PIXMAN_a4 || L.dst.fmt == PIXMAN_a1) && vf_chance (r, 1, 2)) || vf_chance (r, 1, 10));
+        /* ... and what those routes look at is often set just before: the client-clip / source-clipping switches of a clipped source */
+        if (via_traps && L.src.n_clip && vf_chance (r, 1, 2)) {
+            if (vf_chance (r, 1, 2)) { L.src.has_client_clip_only = vf_chance (r, 1, 2); pixman_image_set_has_client_clip (L.src.img, !L.src.has_client_clip_only); if (hk < 1200) hk += snprintf (hist + hk, sizeof hist - hk, "src.set_has_client_clip; "); }
+            else { L.src.clip_sources = vf_chance (r, 1, 2); pixman_image_set_source_clipping (L.src.img, L.src.clip_sources); if (hk < 1200) hk += snprintf (hist + hk, sizeof hist - hk, "src.set_source_clipping; "); }
+            vf_count ("setter_calls", 1); }
         rq_request R = L;          /* records; live pointers are overwritten by rq_build */
         if (ro) R.src.accessors = 1;
         for (int role2 = 0; role2 < 3; role2++) { rq_image *im = role_img (&R, role2); im->img = im->amap = NULL; im->live_params = NULL; memset (&im->buf, 0, sizeof im->buf); memset (&im->abuf, 0, sizeof im->abuf); }
@@ -221,7 +227,6 @@ static void hist_case (long idx, vf_rng *r)
                 pixman_region_fini (&reg); } }
         /* some of the drawing goes through the trapezoid entry point (its routes look at image flags and clip fields themselves): alpha-only destinations
          * with ADD can be rasterised into directly */
-        int via_traps = !wo && (((L.dst.fmt == PIXMAN_a8 || L.dst.fmt == PIXMAN_a4 || L.dst.fmt == PIXMAN_a1) && vf_chance (r, 1, 2)) || vf_chance (r, 1, 10));
         if (via_traps) {
             pixman_trapezoid_t tz[2]; pixman_format_code_t mfmt = (L.dst.fmt == PIXMAN_a8 || L.dst.fmt == PIXMAN_a4 || L.dst.fmt == PIXMAN_a1) ? L.dst.fmt : PIXMAN_a8;
             pixman_op_t top = vf_chance (r, 1, 2) ? PIXMAN_OP_ADD : L.op;
